@@ -1,7 +1,371 @@
-//! C02 engine (not yet built).
-use crate::common::{CaseWriter, Opts};
+//! C02 — object inheritance, late binding and visibility.
+//! Object terms (literals, `+`, objectRemoveKey) are rendered to source, evaluated by the real
+//! evaluator and observed through objectFields*/objectHas*/`in`/field reads/`"f" in super`/
+//! `super.f` probes/manifestation; the layer vector is read through the `verif_core_shape` hook.
+use jrsonnet_evaluator::{manifest::JsonFormat, Val};
+use serde_json::{json, Value};
+
+use crate::common::{guarded, new_state, CaseWriter, Opts, Rng};
+
+#[derive(Clone, Debug)]
+struct F {
+	n: u32,
+	add: bool,
+	vis: u8, // 0 normal 1 hidden 2 unhide
+	val: u32,
+}
+
+#[derive(Clone, Debug)]
+enum T {
+	Lit(Vec<F>, Option<u32>), // fields + optional probe id (field named p<id>, model name 100+id)
+	Add(Box<T>, Box<T>),
+	Rm(Box<T>, u32),
+}
+
+const NAMES: [&str; 3] = ["a", "b", "c"];
+
+fn name_of(n: u32) -> String {
+	if n >= 100 {
+		format!("p{}", n - 100)
+	} else {
+		NAMES[n as usize].to_string()
+	}
+}
+fn id_of(s: &str) -> i64 {
+	match s {
+		"a" => 0,
+		"b" => 1,
+		"c" => 2,
+		_ => s.strip_prefix('p').and_then(|x| x.parse::<i64>().ok()).map_or(-1, |x| 100 + x),
+	}
+}
+
+impl T {
+	fn json(&self) -> Value {
+		match self {
+			T::Lit(fs, probe) => {
+				let mut v: Vec<Value> = fs
+					.iter()
+					.map(|f| json!({"n":f.n,"add":f.add,"vis":(["n","h","u"][f.vis as usize]),"val":f.val}))
+					.collect();
+				if let Some(p) = probe {
+					v.push(json!({"n":100+p,"add":false,"vis":"h","val":0}));
+				}
+				json!({"k":"lit","fs":v})
+			}
+			T::Add(a, b) => json!({"k":"add","a":a.json(),"b":b.json()}),
+			T::Rm(o, n) => json!({"k":"rm","o":o.json(),"ns":[n]}),
+		}
+	}
+	fn src(&self, nnames: usize) -> String {
+		match self {
+			T::Lit(fs, probe) => {
+				let mut parts: Vec<String> = fs
+					.iter()
+					.map(|f| {
+						format!(
+							"{}{}{} [{}]",
+							name_of(f.n),
+							if f.add { "+" } else { "" },
+							[":", "::", ":::"][f.vis as usize],
+							f.val
+						)
+					})
+					.collect();
+				if let Some(p) = probe {
+					let has: Vec<String> =
+						(0..nnames).map(|i| format!("\"{}\" in super", NAMES[i])).collect();
+					let get: Vec<String> = (0..nnames)
+						.map(|i| format!("if \"{0}\" in super then super.{0} else null", NAMES[i]))
+						.collect();
+					parts.push(format!(
+						"p{p}:: [[{}], [{}]]",
+						has.join(", "),
+						get.join(", ")
+					));
+				}
+				format!("{{ {} }}", parts.join(", "))
+			}
+			T::Add(a, b) => format!("({}) + ({})", a.src(nnames), b.src(nnames)),
+			T::Rm(o, n) => format!("std.objectRemoveKey({}, \"{}\")", o.src(nnames), name_of(*n)),
+		}
+	}
+	fn size(&self) -> usize {
+		match self {
+			T::Lit(fs, p) => 1 + fs.len() + usize::from(p.is_some()),
+			T::Add(a, b) => 1 + a.size() + b.size(),
+			T::Rm(o, _) => 1 + o.size(),
+		}
+	}
+	fn probes(&self, out: &mut Vec<u32>) {
+		match self {
+			T::Lit(_, Some(p)) => out.push(*p),
+			T::Lit(_, None) => {}
+			T::Add(a, b) => {
+				a.probes(out);
+				b.probes(out);
+			}
+			T::Rm(o, _) => o.probes(out),
+		}
+	}
+	fn kinds(&self, h: &mut [usize; 8]) {
+		match self {
+			T::Lit(fs, _) => {
+				h[0] += 1;
+				for f in fs {
+					if f.add {
+						h[3] += 1;
+					}
+					h[4 + f.vis as usize] += 1;
+				}
+			}
+			T::Add(a, b) => {
+				h[1] += 1;
+				a.kinds(h);
+				b.kinds(h);
+			}
+			T::Rm(o, _) => {
+				h[2] += 1;
+				o.kinds(h);
+			}
+		}
+	}
+}
+
+struct Gen {
+	next_val: u32,
+	next_probe: u32,
+}
+impl Gen {
+	/// member option index 0 = absent, 1..=6 = (add, vis)
+	fn lit_from(&mut self, opts: &[usize], probe: bool) -> T {
+		let mut fs = Vec::new();
+		for (n, o) in opts.iter().enumerate() {
+			if *o == 0 {
+				continue;
+			}
+			let k = o - 1;
+			self.next_val += 1;
+			fs.push(F { n: n as u32, add: k / 3 == 1, vis: (k % 3) as u8, val: self.next_val });
+		}
+		let p = if probe {
+			self.next_probe += 1;
+			Some(self.next_probe - 1)
+		} else {
+			None
+		};
+		T::Lit(fs, p)
+	}
+	fn random(&mut self, rng: &mut Rng, depth: usize, nnames: usize) -> T {
+		if depth == 0 || rng.chance(1, 4) {
+			let opts: Vec<usize> =
+				(0..nnames).map(|_| if rng.chance(2, 5) { 0 } else { 1 + rng.below(6) }).collect();
+			return self.lit_from(&opts, rng.chance(1, 2));
+		}
+		if rng.chance(1, 4) {
+			let o = self.random(rng, depth - 1, nnames);
+			T::Rm(Box::new(o), rng.below(nnames) as u32)
+		} else {
+			let a = self.random(rng, depth - 1, nnames);
+			let b = self.random(rng, depth - 1, nnames);
+			T::Add(Box::new(a), Box::new(b))
+		}
+	}
+}
+
+#[cfg(jrsonnet_verif)]
+fn shape_json(v: &Val) -> Value {
+	use jrsonnet_evaluator::{VerifCoreShape, Visibility};
+	let Val::Obj(o) = v else { return json!("not-an-object") };
+	let cores = o.verif_core_shape();
+	Value::Array(
+		cores
+			.into_iter()
+			.map(|c| match c {
+				VerifCoreShape::Oop(fs) => {
+					let mut fs: Vec<(i64, bool, &str)> = fs
+						.iter()
+						.map(|(n, add, vis)| {
+							(
+								id_of(n.as_str()),
+								*add,
+								match vis {
+									Visibility::Normal => "n",
+									Visibility::Hidden => "h",
+									Visibility::Unhide => "u",
+								},
+							)
+						})
+						.collect();
+					fs.sort();
+					json!({"k":"oop","fs":fs.iter().map(|f| json!([f.0,f.1,f.2])).collect::<Vec<_>>()})
+				}
+				VerifCoreShape::Omit(ns, prev) => {
+					let mut ns: Vec<i64> = ns.iter().map(|n| id_of(n.as_str())).collect();
+					ns.sort_unstable();
+					json!({"k":"omit","ns":ns,"prev":prev})
+				}
+				VerifCoreShape::StandaloneSuper(i) => json!({"k":"standalone","sup":i}),
+				VerifCoreShape::Other => json!({"k":"other"}),
+			})
+			.collect(),
+	)
+}
+#[cfg(not(jrsonnet_verif))]
+fn shape_json(_v: &Val) -> Value {
+	json!("hook-disabled")
+}
+
+fn names_to_ids(v: &Value) -> Value {
+	Value::Array(
+		v.as_array()
+			.map(|a| a.iter().map(|x| json!(id_of(x.as_str().unwrap_or("?")))).collect())
+			.unwrap_or_default(),
+	)
+}
 
 pub fn run(opts: &Opts) {
-	let w = CaseWriter::new(&opts.out);
-	w.finish(serde_json::json!({"engine":"c02","cases":0,"rule":"stub"}), &opts.out);
+	let s = new_state();
+	let _g = s.enter();
+	let mut w = CaseWriter::new(&opts.out);
+	let mut rng = Rng::new(opts.seed);
+	let mut g = Gen { next_val: 0, next_probe: 0 };
+	let mut terms: Vec<(T, usize)> = Vec::new();
+	// exhaustive: all 2-layer chains over 2 names x 7 member kinds, plain and with the top or the
+	// bottom or the whole wrapped in objectRemoveKey; probes on both layers
+	for x in 0..49usize {
+		for y in 0..49usize {
+			g.next_val = 0;
+			g.next_probe = 0;
+			let a = g.lit_from(&[x % 7, x / 7], true);
+			let b = g.lit_from(&[y % 7, y / 7], true);
+			terms.push((T::Add(Box::new(a.clone()), Box::new(b.clone())), 2));
+			if (x + y) % 5 == 0 {
+				terms.push((T::Add(Box::new(T::Rm(Box::new(a.clone()), 0)), Box::new(b.clone())), 2));
+				terms.push((T::Rm(Box::new(T::Add(Box::new(a.clone()), Box::new(b.clone()))), 1), 2));
+				terms.push((T::Add(Box::new(a), Box::new(T::Rm(Box::new(b), 0))), 2));
+			}
+		}
+	}
+	// exhaustive: all 3-layer chains over 1 name, with a removal after layer 1, 2 or 3 and an
+	// extra base below (masking must not reach below the object the key was removed from)
+	for x in 0..7usize {
+		for y in 0..7usize {
+			for z in 0..7usize {
+				g.next_val = 0;
+				g.next_probe = 0;
+				let base = g.lit_from(&[1], false);
+				let a = g.lit_from(&[x], true);
+				let b = g.lit_from(&[y], true);
+				let c = g.lit_from(&[z], true);
+				let ab = T::Add(Box::new(a.clone()), Box::new(b.clone()));
+				terms.push((T::Add(Box::new(ab.clone()), Box::new(c.clone())), 1));
+				terms.push((
+					T::Add(
+						Box::new(base.clone()),
+						Box::new(T::Add(Box::new(T::Rm(Box::new(ab.clone()), 0)), Box::new(c.clone()))),
+					),
+					1,
+				));
+				terms.push((
+					T::Add(
+						Box::new(T::Add(Box::new(base.clone()), Box::new(T::Rm(Box::new(a.clone()), 0)))),
+						Box::new(T::Add(Box::new(b.clone()), Box::new(c.clone()))),
+					),
+					1,
+				));
+				terms.push((
+					T::Add(
+						Box::new(base),
+						Box::new(T::Rm(Box::new(T::Add(Box::new(ab), Box::new(c))), 0)),
+					),
+					1,
+				));
+			}
+		}
+	}
+	let n_enum = terms.len();
+	let n_rand = if opts.thorough() { 60000 } else { 5000 };
+	for _ in 0..n_rand {
+		g.next_val = 0;
+		g.next_probe = 0;
+		let depth = 1 + rng.below(if opts.thorough() { 5 } else { 4 });
+		terms.push((g.random(&mut rng, depth, 3), 3));
+	}
+	let mut hist = [0usize; 8];
+	for (t, nnames) in &terms {
+		t.kinds(&mut hist);
+		let tj = t.json();
+		let src = t.src(*nnames);
+		let mut probes = Vec::new();
+		t.probes(&mut probes);
+		let names: Vec<u32> = (0..*nnames as u32).collect();
+		let per: Vec<String> = names
+			.iter()
+			.map(|n| {
+				let nm = name_of(*n);
+				format!("{{ has: std.objectHas(o, \"{nm}\"), hasAll: std.objectHasAll(o, \"{nm}\"), inn: \"{nm}\" in o, get: if std.objectHasAll(o, \"{nm}\") then o.{nm} else null }}")
+			})
+			.collect();
+		let pr: Vec<String> = probes.iter().map(|p| format!("o.p{p}")).collect();
+		let code = format!(
+			"local o = {src}; {{ fields: std.objectFields(o), fieldsAll: std.objectFieldsAll(o), len: std.length(o), per: [{}], probes: [{}], vis: {{ [k]: o[k] for k in std.objectFields(o) }}, o: o, eqself: o == o }}",
+			per.join(", "),
+			pr.join(", ")
+		);
+		let probe_ids: Vec<u32> = probes.iter().map(|p| 100 + p).collect();
+		// shape through the hook
+		let shape = guarded(|| s.evaluate_snippet("<c02s>".to_owned(), src.clone()));
+		let shape = match shape {
+			Ok(Ok(v)) => shape_json(&v),
+			Ok(Err(e)) => json!(format!("err:{}", e.error())),
+			Err(_) => json!("panic"),
+		};
+		w.case(json!({"op":"obj.shape","t":tj,"src":src,"size":t.size()}), shape);
+		let r = guarded(|| {
+			s.evaluate_snippet("<c02>".to_owned(), code.clone())
+				.and_then(|v| v.manifest(JsonFormat::minify()))
+		});
+		let ans = match r {
+			Ok(Ok(text)) => {
+				let v: Value = serde_json::from_str(&text).unwrap_or(json!(null));
+				let per: Vec<Value> = v["per"]
+					.as_array()
+					.map(|a| {
+						a.iter()
+							.map(|p| {
+								let ha = if p["inn"] == p["hasAll"] { p["hasAll"].clone() } else { json!("in!=objectHasAll") };
+								json!({"has":p["has"],"hasAll":ha,"get":p["get"]})
+							})
+							.collect()
+					})
+					.unwrap_or_default();
+				let consistent = v["vis"] == v["o"]
+					&& v["eqself"] == json!(true)
+					&& v["len"].as_f64() == v["fields"].as_array().map(|a| a.len() as f64);
+				let mut ans = json!({
+					"fields": names_to_ids(&v["fields"]),
+					"fieldsAll": names_to_ids(&v["fieldsAll"]),
+					"per": per,
+					"probes": v["probes"].as_array().map(|a| a.iter().map(|p| json!({"has":p[0],"get":p[1]})).collect::<Vec<_>>()).unwrap_or_default(),
+				});
+				if !consistent {
+					ans["inconsistent"] = json!({"vis":v["vis"],"o":v["o"],"len":v["len"],"eqself":v["eqself"]});
+				}
+				ans
+			}
+			Ok(Err(e)) => json!({"err": format!("{}", e.error())}),
+			Err(p) => json!({"panic": p}),
+		};
+		w.case(
+			json!({"op":"obj.probe","t":tj,"src":src,"names":names,"probes":probe_ids,"size":t.size()}),
+			ans,
+		);
+	}
+	let meta = json!({
+		"engine":"c02","cases":w.n,"enumerated_terms":n_enum,"random_terms":n_rand,
+		"constructor_hist":{"lit":hist[0],"add":hist[1],"rm":hist[2],"plus_fields":hist[3],"vis_normal":hist[4],"vis_hidden":hist[5],"vis_unhide":hist[6]},
+		"rule":"object terms over {literal with :,::,:::,+: members, a+b, objectRemoveKey}: all 2-layer chains over 2 names x 7 member kinds (+ removal variants), all 3-layer chains over 1 name with removals at each position above an extra base, seeded random terms to depth 4/5 over 3 names; observed via objectFields/All, objectHas/All, in, reads, per-layer `in super`/`super.f` probes, manifest, ==, std.length, and the layer vector via verif_core_shape"
+	});
+	w.finish(meta, &opts.out);
 }
